@@ -116,6 +116,16 @@ def histogram (dist : List Nat) : List (Nat × Nat) :=
   let maxU := dist.foldl max 0
   ((List.range (maxU + 1)).map fun u => (u, (dist.filter (· = u)).length)).filter (·.2 ≠ 0)
 
+/-! ### documented switch points
+
+utest.go documents the defaults: "MannWhitneyExactLimit gives the largest sample size for which the
+exact U distribution will be used" = 50 ("two 50 value samples"), and with ties
+"MannWhitneyTiesExactLimit" = 25 ("two 25 value samples"). Callers may change the variables (the
+model and the p-value specification are parametric in them); the DEFAULTS are part of what "small
+enough for the exact method" means for benchstat users. -/
+def documentedExactLimit : Nat := 50
+def documentedTiesExactLimit : Nat := 25
+
 /-! ### normal approximation (textbook form) -/
 
 /-- σ² = n1·n2/12 · ((N+1) − Σ(t³−t)/(N(N−1))) -/
